@@ -41,7 +41,8 @@ def repo_sources():
 def fingerprint():
     h = hashlib.sha256()
     srcs, hdrs = repo_sources()
-    for f in srcs + hdrs + sorted(glob.glob(os.path.join(VERIF, "harness", "*"))):
+    for f in srcs + hdrs + sorted(glob.glob(os.path.join(VERIF, "harness", "*"))) + [
+            os.path.join(VERIF, "vlib", "tables.py"), os.path.join(VERIF, "vlib", "statics.py")]:
         if os.path.isfile(f):
             h.update(f.encode())
             with open(f, "rb") as fh:
